@@ -102,8 +102,16 @@ func hasContainer(docs []any) bool {
 }
 
 // observeBytes: what bkl itself and the independent parsers read back.
-func observeBytes(dir string, class string, b []byte) map[string]any {
+func observeBytes(dir string, class string, name string, b []byte) map[string]any {
+	// bkl reads the text back under the very format name it was written with (the
+	// extension selects the reader: json-pretty, jsonl and yml have table entries of their own)
 	ext := map[string]string{"json": "json", "json-pretty": "json", "yaml": "yaml", "toml": "toml"}[class]
+	switch name {
+	case "json", "jsonl", "json-pretty", "yaml", "yml", "toml":
+		if classOf(name) == class {
+			ext = name
+		}
+	}
 	obs := map[string]any{"bklok": false, "bkl": []any{}, "multiline": false}
 	ind := map[string]any{}
 	for _, f := range []string{"json", "yaml", "toml"} {
@@ -154,7 +162,7 @@ func classOf(f string) string {
 	return ""
 }
 
-func emitEvent(docs []any, via, format, fflag, opath string, inputs []string, ok bool, b []byte, dir string, class string, kf string) []byte {
+func emitEvent(docs []any, via, format, fflag, opath string, inputs []string, ok bool, b []byte, dir string, class string, name string, kf string) []byte {
 	edocs := make([]any, len(docs))
 	for i, d := range docs {
 		edocs[i] = map[string]any{"id": fmt.Sprintf("d%d", i), "data": tv.FromGo(d)}
@@ -163,7 +171,7 @@ func emitEvent(docs []any, via, format, fflag, opath string, inputs []string, ok
 		"docs": edocs, "ok": ok, "hascontainer": hasContainer(docs), "bklok": false, "bkl": []any{}, "multiline": false,
 		"indep": map[string]any{"json": map[string]any{"ok": false, "docs": []any{}}, "yaml": map[string]any{"ok": false, "docs": []any{}}, "toml": map[string]any{"ok": false, "docs": []any{}}}}
 	if ok {
-		for k, v := range observeBytes(dir, class, b) {
+		for k, v := range observeBytes(dir, class, name, b) {
 			ev[k] = v
 		}
 		ev["bytes"] = trunc(string(b), 400)
@@ -271,7 +279,7 @@ func C05(r *Run) {
 					err = ps.OutputToFile(p, "")
 					b, _ = os.ReadFile(p)
 				}
-				add(emitEvent(docs, "library", f, "", "", nil, err == nil, b, dir, classOf(f), kf))
+				add(emitEvent(docs, "library", f, "", "", nil, err == nil, b, dir, classOf(f), f, kf))
 				os.RemoveAll(dir)
 			}
 			// the CLI, one random selection route
@@ -380,5 +388,5 @@ func cliEmit(r *Run, g *gen.G, docs []any, fflag, oext, iext, kf string) []byte 
 		mo = ""
 	}
 	_ = strings.TrimSpace
-	return emitEvent(docs, via, "", fflag, mo, []string{"/w/" + input}, res.Exit == 0 && !res.TimedOut && !res.Panicked, out, dir, classOf(eff), kf)
+	return emitEvent(docs, via, "", fflag, mo, []string{"/w/" + input}, res.Exit == 0 && !res.TimedOut && !res.Panicked, out, dir, classOf(eff), eff, kf)
 }
